@@ -13,7 +13,7 @@
 //!  (f) every unit LDK writes equals the reference's encryption of its plaintext under the same
 //!      key and nonce, and the plaintext sequence is Init followed by exactly what was queued.
 
-use crate::ab::{bulk_spec, bulk_strat, classify_cut, cut_strat, size_strat, spec_strat};
+use crate::ab::{bulk_spec, bulk_strat, cut_strat, size_strat, spec_strat};
 use crate::bolt8::{Initiator, Responder, Transport};
 use crate::world::*;
 use bitcoin::secp256k1::{PublicKey, Secp256k1};
@@ -309,7 +309,7 @@ fn ref_units(c: &Case, ldk_id: PublicKey, junk_mode: bool) -> Vec<Unit> {
 		feats[l - 1 - b / 8] |= 1 << (b % 8);
 	}
 	let mut units = vec![Unit { plain: init_plain(&feats), recs: vec![], junk: false, pong: None }];
-	let mut push_spec = |units: &mut Vec<Unit>, s: &MsgSpec| {
+	let push_spec = |units: &mut Vec<Unit>, s: &MsgSpec| {
 		for (plain, recs) in build(s, ldk_id).wire {
 			units.push(Unit { plain, recs, junk: false, pong: None });
 		}
@@ -384,7 +384,6 @@ enum Phase {
 
 struct Run<'c> {
 	c: &'c Case,
-	junk_mode: bool,
 	node: Node,
 	sock: Sock,
 	ref_pub: PublicKey,
@@ -396,7 +395,6 @@ struct Run<'c> {
 	ci: usize,
 	read_out: usize,
 	phase: Phase,
-	hs_units_from_ldk: usize,
 	rx: Option<Transport>,
 	mirror: Option<Transport>,
 	pending_len: Option<usize>,
@@ -800,7 +798,6 @@ pub fn oracle(c: &Case, ctx: &mut Ctx, junk_mode: bool) -> CaseResult {
 
 	let mut run = Run {
 		c,
-		junk_mode,
 		ref_pub,
 		ini: None,
 		resp: None,
@@ -810,7 +807,6 @@ pub fn oracle(c: &Case, ctx: &mut Ctx, junk_mode: bool) -> CaseResult {
 		ci: 0,
 		read_out: 0,
 		phase: Phase::Dead,
-		hs_units_from_ldk: 1,
 		rx: None,
 		mirror: None,
 		pending_len: None,
@@ -904,7 +900,6 @@ pub fn oracle(c: &Case, ctx: &mut Ctx, junk_mode: bool) -> CaseResult {
 	let got: Vec<Rec> = run.node.delivered();
 	let st = run.sock.st.lock().unwrap();
 	let (paused, partials, pauses, out_len) = (st.paused, st.partial_writes, st.pauses, st.out.len());
-	let ldk_units = st.unit_starts.len();
 	drop(st);
 	let stuck = run.err_call.is_none() && run.fed < run.to_ldk.len();
 	vensure!(!stuck, "stuck", "no quiescence: {} of {} reference bytes fed, LDK read-paused={}", run.fed, run.to_ldk.len(), paused);
@@ -1062,7 +1057,6 @@ pub fn oracle(c: &Case, ctx: &mut Ctx, junk_mode: bool) -> CaseResult {
 	ctx.label_if(!got_pongs.is_empty(), "pong-checked");
 	ctx.sub_evaluations((got.len() + run.ldk_plain.len()) as u64);
 	ctx.nontrivial_if(e.fault_in_header_or_mac || run.header_splits > 0 || run.mac_splits > 0 || partials > 0 || pauses > 0 || rot_ref >= 1 || rot_ldk >= 1);
-	let _ = (ldk_units, run.hs_units_from_ldk, run.junk_mode, classify_cut);
 	ctx.summary(serde_json::json!({
 		"role": if c.ref_initiator { "reference initiator" } else { "reference responder" }, "fault": format!("{:?}", c.fault), "fault_label": e.fault_label,
 		"ref_units": run.units.len(), "ref_bytes": run.to_ldk.len(), "fed": run.fed, "err_call": run.err_call, "err_by": e.err_by,
